@@ -17,6 +17,7 @@ import (
 	"encoding/json"
 	"fmt"
 	"math/big"
+	"strings"
 	"testing"
 
 	"github.com/ossrs/go-oryx-lib/https/jose"
@@ -106,6 +107,16 @@ func TestVerifC16Acme(t *testing.T) {
 		if obs.l[0].i64() != 0 || got != want {
 			k.fail(idx, cc.size(), "key-authorization-rfc8555", "", fmt.Sprintf("getKeyAuthorization = %q, want %q", got, want))
 		}
+		// splitting at the last dot gives back the token and a thumbprint of 32 bytes (c16_acme_key_authorization)
+		if i := strings.LastIndex(got, "."); i < 0 || got[:i] != token {
+			k.fail(idx, cc.size(), "key-authorization-split", "", got)
+		} else if tb, err := vC16AcmeB64.DecodeString(got[i+1:]); err != nil || !bytes.Equal(tb, thumb) || len(tb) != 32 {
+			k.fail(idx, cc.size(), "key-authorization-split", "", got)
+		}
+		// it does not depend on whether the private or an equal key object is passed, and differs between keys
+		if other, err := getKeyAuthorization(token, keys[(c.l[3].int()+1)%len(keys)]); err == nil && other == got {
+			k.fail(idx, cc.size(), "key-authorization-key-bound", "", "two different account keys give the same key authorization")
+		}
 	}
 	runSign := func(ki int, content []byte, nonce string) {
 		key := keys[ki%len(keys)]
@@ -151,6 +162,27 @@ func TestVerifC16Acme(t *testing.T) {
 		}
 		if len(j.nonces) != 1 || j.nonces[0] != "unused" {
 			k.fail(0, 1, "acme-nonce-consumed", "", fmt.Sprintf("nonces left: %q", j.nonces))
+		}
+		// layout of the posted object: flattened, nonce ONLY inside the protected header (no
+		// unprotected header member at all), exactly payload/protected/signature
+		var top map[string]interface{}
+		json.Unmarshal([]byte(full), &top)
+		if len(top) != 3 || top["header"] != nil || top["signatures"] != nil || strings.Contains(full, nonce) {
+			k.fail(0, 1, "acme-request-layout", "", full)
+		}
+		// a second request takes the next nonce (each signature consumes exactly one)
+		if s2, err := j.signContent(content); err == nil {
+			f2 := s2.FullSerialize()
+			var m2 map[string]string
+			json.Unmarshal([]byte(f2), &m2)
+			p2, _ := vC16AcmeB64.DecodeString(m2["protected"])
+			var h2 struct {
+				Nonce string `json:"nonce"`
+			}
+			json.Unmarshal(p2, &h2)
+			if h2.Nonce != "unused" || len(j.nonces) != 0 || m2["signature"] == m["signature"] && wantAlg == "RS256" {
+				k.fail(0, 1, "acme-nonce-sequence", "", fmt.Sprintf("second request used nonce %q, %d left", h2.Nonce, len(j.nonces)))
+			}
 		}
 		// the embedded jwk is the account key: same thumbprint
 		jb, _ := json.Marshal(hdr.Jwk)
